@@ -163,6 +163,19 @@ func getRespFromCache(msgKey string, backend *cache.Cache[key, *item], lazyCache
 	return nil, false
 }
 
+// negativeMsgTtl returns the lifetime of a negative response: at most maxTtl
+// seconds, and not longer than the smallest ttl of its records (if it has any).
+func negativeMsgTtl(r *dns.Msg, maxTtl uint32) time.Duration {
+	for _, section := range [...][]dns.RR{r.Answer, r.Ns, r.Extra} {
+		for _, rr := range section {
+			if rr.Header().Rrtype != dns.TypeOPT {
+				return time.Duration(min(dnsutils.GetMinimalTTL(r), maxTtl)) * time.Second
+			}
+		}
+	}
+	return time.Duration(maxTtl) * time.Second
+}
+
 // saveRespToCache saves r to cache backend. It returns false if r
 // should not be cached and was skipped.
 func saveRespToCache(msgKey string, r *dns.Msg, backend *cache.Cache[key, *item], lazyCacheTtl int) bool {
@@ -174,10 +187,10 @@ func saveRespToCache(msgKey string, r *dns.Msg, backend *cache.Cache[key, *item]
 	var cacheTtl time.Duration
 	switch r.Rcode {
 	case dns.RcodeNameError:
-		msgTtl = time.Second * 30
+		msgTtl = negativeMsgTtl(r, 30)
 		cacheTtl = msgTtl
 	case dns.RcodeServerFailure:
-		msgTtl = time.Second * 5
+		msgTtl = negativeMsgTtl(r, 5)
 		cacheTtl = msgTtl
 	case dns.RcodeSuccess:
 		minTTL := dnsutils.GetMinimalTTL(r)
